@@ -749,7 +749,7 @@ def MonteCarloSampler_param(MCsampler):
     # convert from lists to arrays:
     param['Ninteract'] = MCsampler.Ninteract
     param['siteinteract'] = MCsampler.siteinteract
-    param['interactvalue'] = MCsampler.interactvalue
+    param['interactvalue'] = np.asarray(MCsampler.interactvalue, dtype=float)
     # to be initialized with start()
     Nsites = MCsampler.supercell.size * MCsampler.supercell.Nmobile
     param['Nsites'] = Nsites
@@ -773,7 +773,7 @@ def MonteCarloSampler_param(MCsampler):
             index[MCsampler.vacancy] = -1
     else:
         # has been initialized...
-        occ = MCsampler.occ.copy()
+        occ = np.array(MCsampler.occ, dtype=int)
         clustercount = MCsampler.clustercount.copy()
         Nocc = 0
         Nunocc = 0
